@@ -114,9 +114,12 @@ type Exec struct {
 	pkgByName     map[string]*ssa.Package
 	effectsMemo   map[*ssa.Function]*Effects
 	activeGhosts  []string
+	frameGhosts   []string
+	inlineCount   map[string]int
 	maxOps        int
 	callSites     map[string][]string
 	topFrame      *Frame
+	immutableKeys map[string]bool
 	steps         int
 	stepBudget    int
 	platformHints map[string]*Term
@@ -127,15 +130,18 @@ func NewExec(prog *ssa.Program, lib *SpecLib, prop string) *Exec {
 	ex := &Exec{prog: prog, lib: lib, prop: prop, defs: map[string]*Def{}, fnInfo: map[*ssa.Function]*FnInfo{},
 		sentinels: map[*ssa.Global]*Term{}, sentinelText: map[string]string{}, constGlobals: map[*ssa.Global]Val{},
 		inlined: map[string]bool{}, havocked: map[string]bool{}, usedExtern: map[string]bool{}, warnings: map[string]bool{},
-		platformHints: map[string]*Term{}, intToFloat: map[string]*Term{}, callOrd: map[string]int{}, pathBudget: 20000, stepBudget: 3000000, maxDepth: 6, pkgByName: map[string]*ssa.Package{}, effectsMemo: map[*ssa.Function]*Effects{}}
+		immutableKeys: map[string]bool{}, inlineCount: map[string]int{}, platformHints: map[string]*Term{}, intToFloat: map[string]*Term{}, callOrd: map[string]int{}, pathBudget: 20000, stepBudget: 3000000, maxDepth: 6, pkgByName: map[string]*ssa.Package{}, effectsMemo: map[*ssa.Function]*Effects{}}
 	for _, p := range prog.AllPackages() {
 		if _, dup := ex.pkgByName[p.Pkg.Name()]; !dup || strings.Contains(p.Pkg.Path(), "ARM-software") {
 			ex.pkgByName[p.Pkg.Name()] = p
 		}
 	}
+	// every ghost can be evaluated; frame obligations ("unchanged unless listed in modifies")
+	// are generated only for the ghosts the property owns
 	for _, n := range sortedKeys(lib.Ghosts) {
-		if tagActive(lib.Ghosts[n].Tags, prop) {
-			ex.activeGhosts = append(ex.activeGhosts, n)
+		ex.activeGhosts = append(ex.activeGhosts, n)
+		if len(lib.Ghosts[n].Tags) > 0 && tagOwned(lib.Ghosts[n].Tags, prop) {
+			ex.frameGhosts = append(ex.frameGhosts, n)
 		}
 	}
 	return ex
@@ -439,6 +445,12 @@ func (ex *Exec) runBlock(fr *Frame, st *State, b *ssa.BasicBlock, idx int) []Out
 			c, _ := ex.val(fr, st, x.Cond).(*Term)
 			if c == nil {
 				c = ex.freshTerm("cond", SBool, false)
+			}
+			// a condition already decided on this path (same term assumed earlier) does not fork
+			if st.pcSet[c.S] {
+				c = TTrue
+			} else if st.pcSet[Not(c).S] {
+				c = TFalse
 			}
 			var outs []Outcome
 			if c.S != "false" {
